@@ -83,7 +83,7 @@ func (c *clusterWorld) stopNode(i int) {
 
 func clusterOp(out *bufio.Writer, op string, raw []byte, scratch string) bool {
 	switch op {
-	case "cluster", "cstart", "cstop", "ccheck", "cstate", "cquery", "cend":
+	case "cluster", "cstart", "cstop", "ccheck", "cstate", "cquery", "cend", "creload":
 	default:
 		return false
 	}
@@ -165,6 +165,14 @@ func clusterOp(out *bufio.Writer, op string, raw []byte, scratch string) bool {
 			return fail("node is down")
 		}
 		res["panic"] = n.VerifNodeCheck()
+		res["settled"] = n.VerifNodeSettle(8 * time.Second)
+	case "creload":
+		// what a SIGHUP leads to on this node: mainLoop runs again with the (unchanged) configuration
+		n := curCluster.nodes[line.Node]
+		if n == nil {
+			return fail("node is down")
+		}
+		n.VerifReload(curCluster.conns, []string{curCluster.addrs[line.Node]})
 		res["settled"] = n.VerifNodeSettle(8 * time.Second)
 	case "cstate":
 		n := curCluster.nodes[line.Node]
